@@ -303,6 +303,100 @@ theorem tie_txSession_forwarding_sem (c v q a : Nat) :
       fwdTxQueryRowsCtx, fwdTxQueryRowsPartialCtx, fwdTxExec, fwdTxPrepare, fwdTxQueryRow, fwdTxQueryRowPartial,
       fwdTxQueryRows, fwdTxQueryRowsPartial, List.getD]
 
+/-! ### round 5c: the session wiring of the model, derived from the source now -/
+
+/-- **Semantic tie of the statement methods' result.**  The control-flow term of every `…Ctx` statement method of
+the transaction's session, run under `runMethod`, returns exactly the error of its one call into database/sql
+(nil when that call worked) — for EVERY error.  A swallowed or replaced error (mutation M15: ErrBadConn turned
+into nil) breaks it. -/
+theorem tie_stmt_methods_return_callee_error (e : Option Err) :
+    returnsCalleeError txExecCtxBlk e = true ∧ returnsCalleeError txQueryRowCtxBlk e = true ∧
+    returnsCalleeError txQueryRowPartialCtxBlk e = true ∧ returnsCalleeError txQueryRowsCtxBlk e = true ∧
+    returnsCalleeError txQueryRowsPartialCtxBlk e = true ∧ returnsCalleeError txPrepareCtxBlk e = true := by
+  have h1 : classify txExecCtxBlk = [.span, .deferEndSpan, .callAssign, .retNone] := by simp [classify, txExecCtxBlk]
+  have h2 : classify txQueryRowCtxBlk = [.span, .deferEndSpan, .retCall] := by simp [classify, txQueryRowCtxBlk]
+  have h3 : classify txQueryRowPartialCtxBlk = [.span, .deferEndSpan, .retCall] := by simp [classify, txQueryRowPartialCtxBlk]
+  have h4 : classify txQueryRowsCtxBlk = [.span, .deferEndSpan, .retCall] := by simp [classify, txQueryRowsCtxBlk]
+  have h5 : classify txQueryRowsPartialCtxBlk = [.span, .deferEndSpan, .retCall] := by simp [classify, txQueryRowsPartialCtxBlk]
+  have h6 : classify txPrepareCtxBlk =
+      [.span, .deferEndSpan, .callAssign, .ifErr [.retNilErr] [], .retValNil] := by simp [classify, txPrepareCtxBlk]
+  unfold returnsCalleeError
+  rw [h1, h2, h3, h4, h5, h6]
+  cases e <;> simp [runOps]
+
+def ctxArgOf : V → Option CtxArg
+  | .ctx 0 => some .callers
+  | .bgCtx => some .background
+  | _ => none
+
+def handleOf : V → Option Handle
+  | .tx => some .tx
+  | .conn => some .pool
+  | .db => some .pool
+  | _ => none
+
+/-- what `transactOnConn` hands to the body -/
+def xHands : List V := evalFwd fwdOnConnBody [V.ctx 0, V.conn, V.beginFn, V.body 0 false]
+/-- what each `…Ctx` statement method hands to database/sql -/
+def xCtxMethods : List (List V) :=
+  [fwdTxExecCtx, fwdTxQueryRowCtx, fwdTxQueryRowPartialCtx, fwdTxQueryRowsCtx, fwdTxQueryRowsPartialCtx].map
+    fun h => evalFwd h [V.ctx 0, V.val 1, V.val 2, V.val 3]
+def xPrepareCtx : List V := evalFwd fwdTxPrepareCtx [V.ctx 0, V.val 1]
+/-- … each context-less one -/
+def xPlainMethods : List (List V) :=
+  [fwdTxExec, fwdTxPrepare, fwdTxQueryRow, fwdTxQueryRowPartial, fwdTxQueryRows, fwdTxQueryRowsPartial].map
+    fun h => evalFwd h [V.val 1, V.val 2, V.val 3]
+
+/-- the session wiring computed from the typed forwarding terms, the wiring strings and the statement-method terms
+the extractor read NOW (`none`: something on the path is not understood) -/
+def extractedWiring : Option Wiring :=
+  match handleOf (xHands.getD 1 .unknown), ctxArgOf (xHands.getD 0 .unknown) with
+  | some bodySession, some bodyCtx =>
+    if xCtxMethods.all (fun a => handleOf (a.getD 1 .unknown) == some .tx) &&
+       (xPrepareCtx :: xCtxMethods).all (fun a => ctxArgOf (a.getD 0 .unknown) == some .callers) &&
+       xPlainMethods.all (fun a => ctxArgOf (a.getD 0 .unknown) == some .background) &&
+       fwdTxPrepareCtx.callee == "t.Tx.PrepareContext" then
+      some { bodySession, bodyCtx, stmtHandle := .tx, stmtCtx := .callers, plainStmtCtx := .background,
+             rawDBRefused := decide (wireTxConnRawDB = ["return nil, errNoRawDBFromTx"]),
+             nestRefused := decide (wireTxConnTransact = ["return errCantNestTx"] ∧
+               wireTxConnTransactCtx = ["return errCantNestTx"] ∧ txConnTransactShape = ["return"] ∧
+               txConnTransactCtxShape = ["return"] ∧ wireFromSession = ["return txConn{ Session: session, }"]),
+             stmtErrReturned :=
+               [txExecCtxBlk, txQueryRowCtxBlk, txQueryRowPartialCtxBlk, txQueryRowsCtxBlk,
+                txQueryRowsPartialCtxBlk, txPrepareCtxBlk].all fun b =>
+                 returnsCalleeError b (some (Err.of (.stmt 0))) && returnsCalleeError b none }
+    else none
+  | _, _ => none
+
+/-- **The session wiring the theorems are about is the wiring of the source**: the body is handed the
+transaction's session and the caller's context; every statement method goes to its own `t.Tx` with the context it
+was given (context-less: Background) and returns database/sql's error; a connection made from the session refuses
+`Transact[Ctx]` and `RawDB`.  (`Props.statements_inside_the_transaction`, `session_conn_refuses`,
+`statement_context_and_errors` are stated for `codeWiring`.) -/
+theorem tie_session_wiring : extractedWiring = some codeWiring := by
+  have hh : xHands = [V.ctx 0, V.tx] := by
+    simp [xHands, evalFwd, evalArg, fwdOnConnBody]
+  have hc : xCtxMethods = [[V.ctx 0, V.tx, V.val 1, V.val 2], [V.ctx 0, V.tx, V.unknown, V.val 2, V.val 3],
+      [V.ctx 0, V.tx, V.unknown, V.val 2, V.val 3], [V.ctx 0, V.tx, V.unknown, V.val 2, V.val 3],
+      [V.ctx 0, V.tx, V.unknown, V.val 2, V.val 3]] := by
+    simp [xCtxMethods, evalFwd, evalArg, fwdTxExecCtx, fwdTxQueryRowCtx, fwdTxQueryRowPartialCtx, fwdTxQueryRowsCtx,
+      fwdTxQueryRowsPartialCtx, List.getD]
+  have hp : xPrepareCtx = [V.ctx 0, V.val 1] := by simp [xPrepareCtx, evalFwd, evalArg, fwdTxPrepareCtx, List.getD]
+  have hq : xPlainMethods = [[V.bgCtx, V.val 1, V.val 2], [V.bgCtx, V.val 1], [V.bgCtx, V.val 1, V.val 2, V.val 3],
+      [V.bgCtx, V.val 1, V.val 2, V.val 3], [V.bgCtx, V.val 1, V.val 2, V.val 3], [V.bgCtx, V.val 1, V.val 2, V.val 3]] := by
+    simp [xPlainMethods, evalFwd, evalArg, fwdTxExec, fwdTxPrepare, fwdTxQueryRow, fwdTxQueryRowPartial, fwdTxQueryRows,
+      fwdTxQueryRowsPartial, List.getD]
+  have he := tie_stmt_methods_return_callee_error (some (Err.of (.stmt 0)))
+  have hn := tie_stmt_methods_return_callee_error none
+  have hcal : (fwdTxPrepareCtx.callee == "t.Tx.PrepareContext") = true := by decide
+  have hr : decide (wireTxConnRawDB = ["return nil, errNoRawDBFromTx"]) = true := by decide
+  have hnest : decide (wireTxConnTransact = ["return errCantNestTx"] ∧
+      wireTxConnTransactCtx = ["return errCantNestTx"] ∧ txConnTransactShape = ["return"] ∧
+      txConnTransactCtxShape = ["return"] ∧ wireFromSession = ["return txConn{ Session: session, }"]) = true := by decide
+  unfold extractedWiring
+  rw [hh, hc, hp, hq, hcal, hr, hnest]
+  simp [handleOf, ctxArgOf, codeWiring, he, hn]
+
 /-- **Semantic tie of `begin`.**  Its control-flow term, read from the source now and run under `runBegin`, is
 exactly what the semantics of `transactOnConn` assumes of `tx, err = b(conn)`: the same driver calls (ONE
 `db.Begin()` with database/sql's retried attempts inside), the same error, and a transaction exactly when one was
@@ -352,5 +446,54 @@ theorem tie_cached_constructors :
 /-- a statement of the body made with a context goes to `sql.Tx.ExecContext` with that context (it is
 database/sql that refuses it once the context is done) -/
 theorem tie_wire_txExecCtx : wireTxExecCtx = ["call exec(ctx, t.Tx, q, args...)", "return "] := by decide
+
+/-! ### round 5c: Goexit in the body -/
+
+open GoZero.C14.Spec in
+/-- the driver calls of a `transactOnConn` whose body leaves through `runtime.Goexit()` (the deferred closure runs,
+the function never returns): the pinned code takes the success branch, the patched one rolls back -/
+def goexitLog (fixed : Bool) (f : Faults) (evs : List Ev) : List Ev :=
+  if f.givesUp then badPrefix maxBeginAttempts []
+  else if !f.begin then badPrefix f.badConn [.begin false]
+  else badPrefix f.badConn (.begin true :: (evs ++ [if fixed then .rollback f.rollbackOk else .commit f.commitOk]))
+
+open GoZero.C14.Spec in
+/-- **Goexit in the body, semantically tied**: the term read from the source now, run with a body that calls
+`runtime.Goexit()`, makes exactly these driver calls — for every fault plan (incl. panicking Commit / Rollback
+and retried Begins) and every list of statement calls -/
+theorem tie_goexit_sem (f : Faults) (evs : List Ev) :
+    (run ⟨f, evs, .goexit⟩ transactOnConnBlk {}).log = goexitLog (decide (transactOnConnBlk = fixedBlk)) f evs := by
+  rcases tie_pinned_or_fixed with h | h
+  · have hne : decide (transactOnConnBlk = fixedBlk) = false := by rw [h]; decide
+    rw [hne, h]
+    obtain ⟨bg, cm, rb, bc, cp, rp, cc, rc⟩ := f
+    cases hg : Faults.givesUp ⟨bg, cm, rb, bc, cp, rp, cc, rc⟩ <;> cases bg <;> cases cp <;> cases cm <;>
+      simp [pinnedBlk, goexitLog, run, assign, doInit, evalCond, doRet, callBody, hg, badPrefix_append,
+        Faults.commitOk]
+  · have hne : decide (transactOnConnBlk = fixedBlk) = true := by rw [h]; decide
+    rw [hne, h]
+    obtain ⟨bg, cm, rb, bc, cp, rp, cc, rc⟩ := f
+    cases hg : Faults.givesUp ⟨bg, cm, rb, bc, cp, rp, cc, rc⟩ <;> cases bg <;> cases rp <;> cases rb <;>
+      simp [fixedBlk, goexitLog, run, assign, doInit, evalCond, doRet, callBody, fmtErr, argVal, hg, badPrefix_append,
+        Faults.rollbackOk]
+
+open GoZero.C14.Spec in
+/-- **Even when the body leaves through Goexit the transaction is begun at most once and ended exactly once** (by
+a Commit in the pinned code — the documented finding —, by a Rollback with the patch), as the last driver call. -/
+theorem goexit_still_ends_exactly_once (fixed : Bool) (f : Faults) (b : Body) :
+    endsExactlyOnce { log := goexitLog fixed f (runBody b).1, runs := 1, body := .nil, ret := none } = true ∧
+    beginsOnce { log := goexitLog fixed f (runBody b).1, runs := 1, body := .nil, ret := none } = true := by
+  have hall := runBody_all b
+  have h1 := filter_nil_of_all stmt_not_begin _ hall
+  have h2 := all_notBeginish _ hall
+  have h3 := filter_nil_of_all stmt_not_end _ hall
+  have h4 := any_false_of_all stmt_not_beginOk _ hall
+  generalize (runBody b).1 = evs at *
+  unfold goexitLog endsExactlyOnce beginsOnce begun count
+  cases hg : f.givesUp <;> cases hb : f.begin <;> cases fixed <;>
+    simp [filter_badPrefix isEnd rfl, filter_badPrefix isStmt rfl, filter_badPrefix isBegin rfl,
+      any_badPrefix isBeginOk rfl, dropWhile_badPrefix, getLast?_badPrefix, List.filter_cons, List.filter_append,
+      List.all_append, getLast?_cons_snoc, h1, h2, h3, h4, maxBeginAttempts, badPrefix] <;>
+    try decide
 
 end GoZero.C14.Tie
